@@ -395,10 +395,13 @@ def template_params(sl):
     # a user parameter must never override Rally's internal template variables
     if bool(fresh_bool("user_tries_to_override_internal")):
         tvars["glob"] = "not-a-function"
+    # a string-valued parameter is substituted verbatim (date-math index names, query strings, quotes of the other kind, ampersands)
+    text_value = ["plain", "<logs-{now/d}>", "bytes:>1024 AND status:<500", "logs & metrics", "it's"][concrete(fresh_int("string_parameter_value", 0, 4))]
+    tvars["s"] = text_value
     if name == "exists_set_param":
-        source = '{"schedule": [{"operation": {"operation-type": "bulk", "x": %s}}]}' % expr
+        source = '{"schedule": [{"operation": {"operation-type": "bulk", "index": "{{ s }}", "x": %s}}]}' % expr
     else:
-        source = '{"schedule": [{"operation": {"operation-type": "bulk", "bulk-size": %s}}]}' % expr
+        source = '{"schedule": [{"operation": {"operation-type": "bulk", "index": "{{ s }}", "bulk-size": %s}}]}' % expr
     internal = loader.default_internal_template_vars(glob_helper=lambda f: ["parts/a.json"] if f == "parts/*.json" else [])
     try:
         text = loader.render_template(source, template_vars=tvars, template_internal_vars=internal, loader=jinja2.DictLoader(PARTS))
@@ -417,6 +420,7 @@ def template_params(sl):
     if how != "ret":
         return
     op = doc["schedule"][0]["operation"]
+    observe("a string-valued parameter arrives exactly as given", op.pop("index", None) == text_value)
     if name == "exists_set_param":
         observe("exists_set_param emits the parameter (or its default)", op == {"operation-type": "bulk", "x": 1, "bulk": value if given else 500})
         return
